@@ -86,7 +86,7 @@ CLAIMED = {
          "Every ordered pair of ~9k (quick) / ~23k (thorough) well-formed region names and every triple of a 160-name subset is compared with the real comparator and with a component-wise (table,start,id) oracle; search keys 'table,key,:' are compared against every name. Exhaustive within the stated alphabet and key length, which is where comparator mistakes live (bytes around ',' and unequal lengths).",
          "Scope bound: start keys <=3 bytes over a 6 (thorough 8) symbol alphabet; well-formed names only.", "DESIGN.md §4 C16"),
 }
-FIX_COMMITS = ["0da2129", "62252c5", "effb93f", "0cef440", "27c75df", "f573f90", "137cea9", "fa68402", "74e6ab5", "ffdcfd8", "dc24a9a", "6fcb5bf", "0fa34d5", "6c1c1ad", "7f1a30c", "182fbfa", "4bf0000", "ea56d2b", "42fccfe", "9fcc7db", "b774b6b", "8cf1667", "37b9cbe", "93791b8", "c29fe29", "6580dad", "aa30842", "52a1fca", "742668c", "416af3a", "391f649", "3b0b9d6", "fe3839c", "52710a6", "a206221", "401f2d8", "d07342b", "4321484", "fb45e7e", "905f0eb", "6247cc8", "4bc6452"]
+FIX_COMMITS = ["0da2129", "62252c5", "effb93f", "0cef440", "27c75df", "f573f90", "137cea9", "fa68402", "74e6ab5", "ffdcfd8", "dc24a9a", "6fcb5bf", "0fa34d5", "6c1c1ad", "7f1a30c", "182fbfa", "4bf0000", "ea56d2b", "42fccfe", "9fcc7db", "b774b6b", "8cf1667", "37b9cbe", "93791b8", "c29fe29", "6580dad", "aa30842", "52a1fca", "742668c", "416af3a", "391f649", "3b0b9d6", "fe3839c", "52710a6", "a206221", "401f2d8", "d07342b", "4321484", "fb45e7e", "905f0eb", "6247cc8", "4bc6452", "9ca6716", "f352e7f", "b49b752", "a7ff6df"]
 NA_REASONS = {}
 PENDING_REASON = "check under construction in this revision (planned: see DESIGN.md §4); not claimed until its check is committed"
 
